@@ -138,10 +138,10 @@ pub fn cas_h<S: Strat>(kind: CasKind, fill: bool) {
             hs.push(rt::spawn(move || {
                 let h = prologue(&fil, false);
                 rt::quiet(|| rt::barrier(nthreads));
-                store(&c, V::new(31));
-                store(&c, a2);
+                let x = swap(&c, V::new(31));
+                let y = swap(&c, a2);
                 release(h);
-                vec![]
+                vec![x, y]
             }));
         }
         CasKind::Two => {
@@ -889,6 +889,7 @@ pub fn adversary<S: Strat>(k: usize, g: usize, fill: bool) {
     let w = {
         let (c, fil) = (c.clone(), fil.clone());
         rt::spawn(move || {
+            rt::atomic_thread();
             let h = prologue(&fil, false);
             rt::quiet(|| rt::barrier(2));
             for i in 0..k {
@@ -934,4 +935,519 @@ pub fn adversary<S: Strat>(k: usize, g: usize, fill: bool) {
     w.join();
     r.join();
     epilogue_p(vec![c], fil, vec![], false, "C03");
+}
+
+// ------------------------------------------------------------------------------------------
+// Families with atomic helper threads (free placement of complete calls, budget k)
+
+/// C{compare_and_swap(a => n)} with W{store b; store a (same object)} run as complete calls in
+/// any gaps of the compare_and_swap (A-B-A between its internal load and its exchange, and
+/// between a failed exchange and the reload).
+pub fn cas_adv<S: Strat>(fill: bool) {
+    let a = V::new(1);
+    let a_for_c = rt::quiet(|| a.clone());
+    let a_for_w = rt::quiet(|| a.clone());
+    let c = Cont::<S>::new(0, a);
+    let fil = filler::<S>();
+    let w = {
+        let (c, fil) = (c.clone(), fil.clone());
+        rt::spawn(move || {
+            rt::atomic_thread();
+            let h = prologue(&fil, false);
+            rt::quiet(|| rt::barrier(2));
+            // swap (not store): what each write replaced is part of the observable history
+            let x = swap(&c, V::new(31));
+            let lx = x.peek_label();
+            use_value(&x, lx, "swap result");
+            rt::call_boundary();
+            let y = swap(&c, a_for_w);
+            let ly = y.peek_label();
+            use_value(&y, ly, "swap result");
+            rt::call_boundary();
+            release(h);
+            vec![x, y]
+        })
+    };
+    let t = {
+        let (c, fil) = (c.clone(), fil.clone());
+        rt::spawn(move || {
+            let h = prologue(&fil, fill);
+            rt::quiet(|| rt::barrier(2));
+            let g = cas(&c, &a_for_c, V::new(21));
+            let l = g.peek_label();
+            use_value(&g, l, "compare_and_swap result");
+            let old = guard_into_inner(g);
+            release(h);
+            vec![old, a_for_c]
+        })
+    };
+    rt::join_all();
+    let mut kept = w.join().unwrap_or_default();
+    kept.extend(t.join().unwrap_or_default());
+    epilogue_p(vec![c], fil, kept, true, "C05");
+}
+
+/// T{rcu(+1)} with W{store 100; store 200} as complete calls in any gaps of the rcu.
+pub fn rcu_adv<S: Strat>(fill: bool) {
+    let c = Cont::<S>::new(0, V::new(1));
+    let fil = filler::<S>();
+    let w = {
+        let (c, fil) = (c.clone(), fil.clone());
+        rt::spawn(move || {
+            rt::atomic_thread();
+            let h = prologue(&fil, false);
+            rt::quiet(|| rt::barrier(2));
+            store(&c, V::new(rcu_label(100, 2, 0)));
+            rt::call_boundary();
+            store(&c, V::new(rcu_label(200, 2, 1)));
+            rt::call_boundary();
+            release(h);
+        })
+    };
+    let t = {
+        let (c, fil) = (c.clone(), fil.clone());
+        rt::spawn(move || {
+            let h = prologue(&fil, fill);
+            rt::quiet(|| rt::barrier(2));
+            let old = rcu_inc(&c, 1);
+            let l = old.peek_label();
+            use_value(&old, l, "rcu result");
+            release(h);
+            vec![old]
+        })
+    };
+    rt::join_all();
+    w.join();
+    let kept = t.join().unwrap_or_default();
+    let fin = rt::quiet(|| c.sw.load_full());
+    let fv = rcu_value(fin.peek_label());
+    // the increment lands before, between or after the two stores
+    if ![200u64, 201].contains(&fv) && !rt::draining() {
+        rt::violation(
+            "C06",
+            "lost-update",
+            format!("after rcu(+1) and stores of 100 and 200 completed the counter is {}: history {:?}", fv, world::fmt_history(Some(0))),
+        );
+    }
+    world::observe(fv);
+    rt::quiet(|| drop(fin));
+    epilogue_p(vec![c], fil, kept, true, "C06");
+}
+
+/// R{load; load} || W{store} both interleaved step by step, plus W2{store} as one complete call
+/// placed anywhere: the helping hand-over racing with a second writer.
+pub fn help_adv<S: Strat>(fill: bool) {
+    let c = Cont::<S>::new(0, V::new(1));
+    let fil = filler::<S>();
+    let w2 = {
+        let (c, fil) = (c.clone(), fil.clone());
+        rt::spawn(move || {
+            rt::atomic_thread();
+            let h = prologue(&fil, false);
+            rt::quiet(|| rt::barrier(3));
+            store(&c, V::new(21));
+            rt::call_boundary();
+            release(h);
+        })
+    };
+    let w = {
+        let (c, fil) = (c.clone(), fil.clone());
+        rt::spawn(move || {
+            let h = prologue(&fil, false);
+            rt::quiet(|| rt::barrier(3));
+            store(&c, V::new(11));
+            release(h);
+        })
+    };
+    let r = {
+        let (c, fil) = (c.clone(), fil.clone());
+        rt::spawn(move || {
+            let h = prologue(&fil, fill);
+            rt::quiet(|| rt::barrier(3));
+            for _ in 0..2 {
+                let g = load(&c);
+                let l = g.peek_label();
+                use_value(&g, l, "guard");
+                drop_guard(g);
+            }
+            release(h);
+        })
+    };
+    rt::join_all();
+    w2.join();
+    w.join();
+    r.join();
+    epilogue_p(vec![c], fil, vec![], false, "C03");
+}
+
+/// One thread loads from A and then from B (back to back on its path) while a writer stores to
+/// A: a help meant for the load of A must never be delivered to the load of B.
+pub fn iso_ab<S: Strat>(fill: bool)
+where
+    S: arc_swap::strategy::Strategy<V2> + arc_swap::strategy::CaS<V2>,
+{
+    let a = Cont::<S>::new(0, V::new(1));
+    let b: Arc<arc_swap::ArcSwapAny<V2, S>> = Arc::new(arc_swap::ArcSwapAny::with_strategy(V2::new(2), S::default()));
+    let fil = filler::<S>();
+    let r = {
+        let (a, b, fil) = (a.clone(), b.clone(), fil.clone());
+        rt::spawn(move || {
+            let h = prologue(&fil, fill);
+            rt::quiet(|| rt::barrier(2));
+            let g = load(&a);
+            let l = g.peek_label();
+            use_value(&g, l, "guard from A");
+            drop_guard(g);
+            rt::call_begin("load(B)", "C08", LOAD_CAP);
+            let gb = b.load();
+            rt::call_end();
+            let lb = gb.get();
+            if lb != 2 && !rt::draining() {
+                rt::violation("C12,C03", "provenance", format!("a load from container B returned value #{} which was never stored in B", lb));
+            }
+            drop(gb);
+            release(h);
+        })
+    };
+    let w = {
+        let (a, fil) = (a.clone(), fil.clone());
+        rt::spawn(move || {
+            let h = prologue(&fil, false);
+            rt::quiet(|| rt::barrier(2));
+            store(&a, V::new(11));
+            store(&a, V::new(12));
+            release(h);
+        })
+    };
+    rt::join_all();
+    r.join();
+    w.join();
+    rt::quiet(|| match Arc::try_unwrap(b) {
+        Ok(b) => drop(b),
+        Err(_) => panic!("harness bug"),
+    });
+    epilogue_p(vec![a], fil, vec![], false, "C12");
+}
+
+// ------------------------------------------------------------------------------------------
+// C18 under the engine: panics in user code while other threads interfere
+
+/// The destructor of value #1 panics, in whichever thread and inside whichever library call it
+/// happens to run (a reader's fallback load that was helped, a writer's store, a guard drop).
+/// Every call is wrapped in catch_unwind; afterwards counts must be exact and slots empty.
+pub fn panic_dtor<S: Strat>(fill: bool, two_writers: bool) {
+    world::set_extra_tag(",C18");
+    let c = Cont::<S>::new(0, V::new(1));
+    let fil = filler::<S>();
+    crate::varc::reg(|r| {
+        r.on_destroy = Some(Rc::new(move |label| {
+            if label == 1 && !rt::draining() {
+                std::panic::panic_any(rt::Injected("destructor of value #1"));
+            }
+        }))
+    });
+    let n = 2 + two_writers as usize;
+    let guarded = |f: &mut dyn FnMut()| {
+        let r = std::panic::catch_unwind(std::panic::AssertUnwindSafe(f));
+        if let Err(p) = r {
+            if p.downcast_ref::<rt::Injected>().is_none() {
+                let msg = rt::take_last_panic().unwrap_or_default();
+                rt::violation("C13,C18", "panic", format!("a library call panicked on its own account: {}", msg));
+            } else {
+                world::observe(777);
+            }
+        }
+    };
+    let r = {
+        let (c, fil) = (c.clone(), fil.clone());
+        rt::spawn(move || {
+            let h = prologue(&fil, fill);
+            rt::quiet(|| rt::barrier(n));
+            for _ in 0..2 {
+                let mut g = None;
+                guarded(&mut || {
+                    g = Some(c.sw.load());
+                });
+                if let Some(g) = g {
+                    let l = g.peek_label();
+                    use_value(&g, l, "guard");
+                    let mut g = Some(g);
+                    guarded(&mut || drop(g.take()));
+                }
+            }
+            release(h);
+        })
+    };
+    let mut ws = Vec::new();
+    for wi in 0..(1 + two_writers as u64) {
+        let (c, fil) = (c.clone(), fil.clone());
+        ws.push(rt::spawn(move || {
+            let h = prologue(&fil, false);
+            rt::quiet(|| rt::barrier(n));
+            guarded(&mut || c.sw.store(V::new(11 + 10 * wi)));
+            release(h);
+        }));
+    }
+    rt::join_all();
+    r.join();
+    for w in ws {
+        w.join();
+    }
+    crate::varc::reg(|r| r.on_destroy = None);
+    // the panic must not have cost or leaked a reference anywhere
+    let fin = rt::quiet(|| c.sw.load_full());
+    let fl = fin.peek_label();
+    let mut owners: HashMap<u64, usize> = HashMap::new();
+    owners.insert(fl, 2);
+    owners.insert(90, 1);
+    world::check_counts::<1>(&owners, "after panics in the destructor of a replaced value");
+    rt::quiet(|| drop(fin));
+    world::world(|w| {
+        w.history.clear();
+        w.initial.insert(0, fl);
+    });
+    epilogue_p(vec![c], fil, vec![], false, "C18");
+}
+
+/// rcu whose closure panics on its k-th attempt (retries are forced by a competing writer).
+pub fn panic_rcu<S: Strat>(fill: bool, panic_at: u64) {
+    world::set_extra_tag(",C18");
+    let c = Cont::<S>::new(0, V::new(1));
+    let fil = filler::<S>();
+    let t = {
+        let (c, fil) = (c.clone(), fil.clone());
+        rt::spawn(move || {
+            let h = prologue(&fil, fill);
+            rt::quiet(|| rt::barrier(2));
+            let attempt = std::cell::Cell::new(0u64);
+            let r = std::panic::catch_unwind(std::panic::AssertUnwindSafe(|| {
+                c.sw.rcu(|v: &V| {
+                    let a = attempt.get() + 1;
+                    attempt.set(a);
+                    let l = v.get();
+                    if a == panic_at {
+                        std::panic::panic_any(rt::Injected("rcu closure"));
+                    }
+                    V::new(rcu_label(rcu_value(l) + 1, 1, a))
+                })
+            }));
+            world::observe(attempt.get() * 10 + r.is_err() as u64);
+            match r {
+                Ok(old) => {
+                    let l = old.peek_label();
+                    use_value(&old, l, "rcu result");
+                    release(h);
+                    vec![old]
+                }
+                Err(p) => {
+                    if p.downcast_ref::<rt::Injected>().is_none() {
+                        let msg = rt::take_last_panic().unwrap_or_default();
+                        rt::violation("C13,C18", "panic", format!("rcu panicked on its own account: {}", msg));
+                    }
+                    release(h);
+                    vec![]
+                }
+            }
+        })
+    };
+    let w = {
+        let (c, fil) = (c.clone(), fil.clone());
+        rt::spawn(move || {
+            let h = prologue(&fil, false);
+            rt::quiet(|| rt::barrier(2));
+            c.sw.store(V::new(rcu_label(100, 2, 0)));
+            c.sw.store(V::new(rcu_label(200, 2, 1)));
+            release(h);
+        })
+    };
+    rt::join_all();
+    let kept = t.join().unwrap_or_default();
+    w.join();
+    let fin = rt::quiet(|| c.sw.load_full());
+    let fl = fin.peek_label();
+    let fv = rcu_value(fl);
+    // the container holds a legitimately stored value: 200 or an increment on top of it
+    if ![200u64, 201].contains(&fv) && !rt::draining() {
+        rt::violation("C18", "after-panic", format!("after an rcu whose closure panicked on attempt {} the container holds {}", panic_at, fv));
+    }
+    rt::quiet(|| drop(fin));
+    world::world(|w| {
+        w.history.clear();
+        w.initial.insert(0, fl);
+    });
+    epilogue_p(vec![c], fil, kept, false, "C18");
+}
+
+// ------------------------------------------------------------------------------------------
+// Cache and Map under the engine (concurrent clauses of C16 / C17)
+
+fn order_of(label: u64) -> u64 {
+    match label {
+        1 => 0,
+        11 => 1,
+        12 => 2,
+        _ => 99,
+    }
+}
+
+/// W{store #11; store #12; flag.store(Release)} || C{cache.load; if flag.load(Acquire) {cache.load
+/// must be #12}; cache.load}: per-cache monotone in write order, never a foreign identity, and a
+/// store whose completion happens-before the call is seen.
+pub fn cache_conc<S: Strat>(fill: bool) {
+    use arc_swap::cache::Cache;
+    use rt::atomic::AtomicUsize;
+    use std::sync::atomic::Ordering::{Acquire, Release};
+    let c = Cont::<S>::new(0, V::new(1));
+    let fil = filler::<S>();
+    let flag = Arc::new(AtomicUsize::new(0));
+    let w = {
+        let (c, fil, flag) = (c.clone(), fil.clone(), flag.clone());
+        rt::spawn(move || {
+            let h = prologue(&fil, false);
+            rt::quiet(|| rt::barrier(2));
+            store(&c, V::new(11));
+            store(&c, V::new(12));
+            flag.store(1, Release);
+            release(h);
+        })
+    };
+    let r = {
+        let (c, fil, flag) = (c.clone(), fil.clone(), flag.clone());
+        rt::spawn(move || {
+            let h = prologue(&fil, fill);
+            let mut cache = rt::quiet(|| Cache::new(&c.sw));
+            rt::quiet(|| rt::barrier(2));
+            let mut last = 0u64;
+            let mut do_load = |must_be_newest: bool| {
+                let b = begin("cache.load", "C08", LOAD_CAP);
+                let v = cache.load();
+                let l = v.peek_label();
+                finish(b, 0, world::Kind::CacheLoad, 0, 0, l);
+                use_value(v, l, "value returned by Cache::load");
+                let o = order_of(l);
+                if rt::draining() {
+                    return;
+                }
+                if o == 99 {
+                    rt::violation("C16", "cache", format!("Cache::load returned value #{} which was never stored in the container", l));
+                } else if o < last {
+                    rt::violation("C16", "cache", format!("Cache::load went backwards in the order of writes: returned #{} after a newer value", l));
+                } else if must_be_newest && l != 12 {
+                    rt::violation(
+                        "C16",
+                        "cache",
+                        format!("Cache::load returned #{} although the completion of store(#12) happens-before the call (release/acquire flag)", l),
+                    );
+                }
+                last = o;
+                world::observe(l);
+            };
+            do_load(false);
+            if flag.load(Acquire) == 1 {
+                do_load(true);
+            }
+            do_load(false);
+            rt::quiet(|| drop(cache));
+            release(h);
+        })
+    };
+    rt::join_all();
+    w.join();
+    r.join();
+    epilogue_p(vec![c], fil, vec![], false, "C16");
+}
+
+/// R{g = map.load(); deref; deref; drop; g2 = map.load(); deref} || W{store; store}: a projection
+/// guard keeps denoting (and keeps alive) one snapshot.
+pub fn map_conc<S: Strat>(fill: bool) {
+    use arc_swap::access::{Access, Map};
+    let c = Cont::<S>::new(0, V::new(1));
+    let fil = filler::<S>();
+    let w = {
+        let (c, fil) = (c.clone(), fil.clone());
+        rt::spawn(move || {
+            let h = prologue(&fil, false);
+            rt::quiet(|| rt::barrier(2));
+            store(&c, V::new(11));
+            store(&c, V::new(12));
+            release(h);
+        })
+    };
+    let r = {
+        let (c, fil) = (c.clone(), fil.clone());
+        rt::spawn(move || {
+            let h = prologue(&fil, fill);
+            rt::quiet(|| rt::barrier(2));
+            let m = Map::new(&c.sw, |v: &V| v);
+            rt::call_begin("Map::load", "C08", LOAD_CAP);
+            let g = Access::load(&m);
+            rt::call_end();
+            let first = g.peek_label();
+            for i in 0..2 {
+                let got = g.get();
+                if got != first && !rt::draining() {
+                    rt::violation("C17", "snapshot", format!("a projection guard taken on value #{} reads #{} at its deref number {}", first, got, i + 1));
+                }
+            }
+            world::observe(first);
+            rt::call_begin("drop(MapGuard)", "C09", DROP_CAP);
+            drop(g);
+            rt::call_end();
+            let g2 = Access::load(&m);
+            let second = g2.get();
+            if order_of(second) < order_of(first) && !rt::draining() {
+                rt::violation("C17", "snapshot", format!("a later projection load returned #{} after #{}", second, first));
+            }
+            world::observe(second);
+            drop(g2);
+            release(h);
+        })
+    };
+    rt::join_all();
+    w.join();
+    r.join();
+    epilogue_p(vec![c], fil, vec![], false, "C17");
+}
+
+/// T{rcu(+1)} with W{swap(b); swap(a back, the same object)} as complete calls in any gaps: the
+/// pointer the rcu based its attempt on comes back (A-B-A), e.g. a shared "empty" value.
+pub fn rcu_aba<S: Strat>(fill: bool) {
+    let a = V::new(1);
+    let a_for_w = rt::quiet(|| a.clone());
+    let c = Cont::<S>::new(0, a);
+    let fil = filler::<S>();
+    let w = {
+        let (c, fil) = (c.clone(), fil.clone());
+        rt::spawn(move || {
+            rt::atomic_thread();
+            let h = prologue(&fil, false);
+            rt::quiet(|| rt::barrier(2));
+            let x = swap(&c, V::new(rcu_label(100, 2, 0)));
+            let lx = x.peek_label();
+            use_value(&x, lx, "swap result");
+            rt::call_boundary();
+            let y = swap(&c, a_for_w);
+            let ly = y.peek_label();
+            use_value(&y, ly, "swap result");
+            rt::call_boundary();
+            release(h);
+            vec![x, y]
+        })
+    };
+    let t = {
+        let (c, fil) = (c.clone(), fil.clone());
+        rt::spawn(move || {
+            let h = prologue(&fil, fill);
+            rt::quiet(|| rt::barrier(2));
+            let old = rcu_inc(&c, 1);
+            let l = old.peek_label();
+            use_value(&old, l, "rcu result");
+            release(h);
+            vec![old]
+        })
+    };
+    rt::join_all();
+    let mut kept = w.join().unwrap_or_default();
+    kept.extend(t.join().unwrap_or_default());
+    epilogue_p(vec![c], fil, kept, true, "C06");
 }
